@@ -173,8 +173,8 @@ CHECKS = {
             'DESIGN.md 2/C15'),
     'C16': ('model_checking',
             'explicit enumeration of call-tree histories against a list-as-stack reference model + exhaustive schedule exploration of the real code under a cooperative scheduler with preemption bounding',
-            'Histories: every call tree with <= 3 nodes (thorough 4) over 14 node kinds (incl. internal_convert with a context object '
-            'captured outside the parent) x raising node (entry/exit, Exception or '
+            'Histories: every call tree with <= 3 nodes (thorough 4) over 15 node kinds (incl. internal_convert with a context object '
+            'captured outside the parent and a generator wrapped by do_not_convert) x raising node (entry/exit, Exception or '
             'BaseException) x catching ancestor (~103k executions quick) is run on the real wrappers and compared observation by '
             'observation with the reference model; identity of the context object is checked around every call. Schedules: 2-3 '
             'threads each running a tree under the scheduler (scheduling point at every traced line of ag_ctx.py and '
